@@ -110,6 +110,17 @@ class G_{uid}(Component):
     def up():
       s.out @= s.in_ + n
 
+class T_{uid}(Component):
+  def construct(s, tbl):
+    # a per-instance constant table kept as an attribute and read through subscripts in a block (the
+    # block's AST is shared by all instances of the class, the table is not)
+    s.in_ = InPort(Bits8)
+    s.out = OutPort(Bits8)
+    s.tbl = [Bits8(x) for x in tbl]
+    @update
+    def up():
+      s.out @= s.in_ * s.tbl[0] + s.tbl[1]
+
 class Top_{uid}(Component):
   def construct(s):
     s.in_ = InPort(Bits8)
@@ -143,6 +154,8 @@ def gen_param_design(c, uid):
   if c.random() < 0.4:
     cands8 = cands8 + ["G_%s([[0, 1], [2]])", "G_%s([[0], [1, 2]])", "G_%s([0, 1, 2])", "G_%s([[0, 1, 2]])",
                        "G_%s([[0], [1], [2]])", "G_%s([[0, 1], [2]])"] * 2
+  if c.random() < 0.4:
+    cands8 = cands8 + ["T_%s([2, 1])", "T_%s([3, 4])", "T_%s([2, 1])", "T_%s([5, 1])", "T_%s([3, 7])", "T_%s((2, 1))"] * 2
   cands16 = ["P_%s(Bits16, 1)", "P_%s(Bits16, 2)", "Q_%s(16, 2)", "Q_%s(16, 1)", "P_%s(Bits16, 1)"]
   for _ in range(c.randint(3, 7)):
     inst8.append(c.choice(cands8) % uid)
